@@ -703,6 +703,8 @@ REVIEWED_IMPLICIT = {
     '_autoforwards:resolve_name|attr:$.__globals__': 'func is the object whose code was parsed by get_ast (it has __code__): a function, or a bound '
                                                      'method, which hands attribute reads on to its function',
     '_autoforwards:resolve_name|attr:$.__code__': 'same object: get_ast returned its AST only because func.__code__ exists',
+    '_autoforwards:resolve_name|attr:$.__closure__': 'same object (the pinned tree reads it under a Python 2 compatibility handler; every '
+                                                     'object with __code__ and __globals__ has __closure__)',
 }
 IMPLICIT_ROOTS = ('_specifiers:forged_signature', '_signatures:signature', 'sphinxext:process_signature')
 
